@@ -19,7 +19,7 @@ var goGenerators = []string{"generator/go/gounions", "generator/go/randdata", "g
 
 func checkC01(w *World, r *Result) {
 	r.Explanation = "Decides, on the template language of the three Go generators (every Declaration content is abstractly evaluated from the generator source into a sketch: literal text, typed holes, repetitions, alternatives; 0 unclassified holes required): TPL-1 every instantiation (repetitions 0..2, thorough 0..3; every alternative chosen) parses as Go; TPL-3 no comma-separated list can contain an empty element; PRINTF every constant format has exactly the arguments it needs (no %!s(MISSING)/%!(EXTRA)); TPL-2 a stub type-check of the instantiations with holes declared as opaque types reports no literal selector on a user type and no literal identifier that neither the standard library nor a sibling template defines; AGR-C01a in randdata the declaration ID, the generated function name and the name used at call sites come from the same functionID, and the literal names of the basic generators equal go/types' names of their kinds; AGR-C01c every <T>ArrayToPQ / Scan<T>Array a template calls is declared by idArrayConverters(<T>) in the same function under no stronger condition (apart from the documented generateArrayConverter test); AGR-C01q type names are printed relative to the package the generated file belongs to; DECL-ID declaration IDs cover what their content reads (no two different declarations merged, none duplicated). Does not decide: well-formedness of hole fillers for every input (type strings of foreign generic types, identifier collisions between user types), import completeness after goimports. Known: NewDateFrom/.Time() convention required from the user package for local date types."
-	r.Rules = []string{"TPL-1", "TPL-3", "PRINTF", "TPL-2", "AGR-C01a", "AGR-C01c", "AGR-C01q", "AGR-C01u", "UTF8-SLICE", "DECL-ID", "GEN-ID", "PKG-ID", "ALIAS-APPEND"}
+	r.Rules = []string{"TPL-1", "TPL-3", "PRINTF", "TPL-2", "AGR-C01a", "AGR-C01c", "AGR-C01q", "AGR-C01u", "AGR-C01g", "TYPE-SRC", "AGR-C15d", "UTF8-SLICE", "DECL-ID", "GEN-ID", "PKG-ID", "ALIAS-APPEND"}
 	aliasAppendRule(w, r, func(rel string) bool { return rel == "generator" || rel == "generator/go/gounions" || rel == "generator/go/randdata" || rel == "generator/go/sqlcrud" || rel == "analysis/sql" })
 	r.Assumptions = []string{"holes of class IDENT/TYPE are filled with well-formed Go identifiers/type expressions (they come from go/types)", "goimports adds/removes imports of the standard library and of the packages listed in the header"}
 	maxRep := 2
@@ -46,6 +46,11 @@ func checkC01(w *World, r *Result) {
 	checkConverterClosure(w, r)
 	checkQualifier(w, r)
 	checkUniqueSelectors(w, r)
+	checkArrayConverterPredicate(w, r)
+	if typeSrcRule(w, r, goGenerators) < 1 {
+		Undecided("TYPE-SRC: no types.TypeString over an analysis node found in the Go generators")
+	}
+	checkDeclaredOnEveryPath(w, r)
 	utf8SliceRule(w, r, func(rel string) bool { return rel == "generator" || strings.HasPrefix(rel, "generator/go/") })
 	pkgIDRule(w, r, func(rel string) bool { return rel == "generator" || strings.HasPrefix(rel, "generator/go/") })
 	for _, rel := range goGenerators {
@@ -550,5 +555,70 @@ func checkUniqueSelectors(w *World, r *Result) {
 	}
 	if n < 1 {
 		Undecided("AGR-C01u: no Select<T>By<Field> template found in a foreign-key loop of sqlcrud")
+	}
+}
+
+// checkArrayConverterPredicate (AGR-C01g): idArrayConverters declares `func <T>ArrayToPQ`, `Scan<T>Array`,
+// `type <T>Set` with <T> the printed name of the key's ID type, so it may only be generated when that name is a
+// plain identifier of the target package: the type is int64 itself, or a named type declared in the analysed
+// package. generateArrayConverter must therefore answer true only (a) under `typeName(ty) == "int64"` on the type
+// itself (its Underlying() is int64 for every ID type, also the foreign ones) or (b) with the comparison of the
+// type's package with the analysed package.
+func checkArrayConverterPredicate(w *World, r *Result) {
+	fi := w.MustFunc("generator/go/sqlcrud.(context).generateArrayConverter")
+	info := fi.Pkg.TypesInfo
+	n := 0
+	ast.Inspect(fi.Decl.Body, func(x ast.Node) bool {
+		ret, ok := x.(*ast.ReturnStmt)
+		if !ok || len(ret.Results) != 1 {
+			return true
+		}
+		n++
+		res := ast.Unparen(ret.Results[0])
+		cons := "return " + es(res)
+		pos := w.Pos(ret.Pos())
+		if tv := info.Types[res]; tv.Value != nil && tv.Value.Kind() == constant.Bool {
+			if !constant.BoolVal(tv.Value) {
+				r.ok("AGR-C01g", fi.Name, cons, pos, "no converter generated", false)
+				return true
+			}
+			// return true: must be under typeName(<identifier>) == "int64"
+			good, seen := false, ""
+			for _, c := range pathConds(fi.Decl, ret) {
+				be, ok := c.expr.(*ast.BinaryExpr)
+				if !ok || !c.truth || be.Op != token.EQL {
+					continue
+				}
+				call, ok := ast.Unparen(be.X).(*ast.CallExpr)
+				if !ok || len(call.Args) != 1 {
+					continue
+				}
+				if fn := calleeOf(info, call); fn == nil || fn.Name() != "typeName" {
+					continue
+				}
+				seen = es(c.expr)
+				if tv := info.Types[be.Y]; tv.Value != nil && tv.Value.Kind() == constant.String && constant.StringVal(tv.Value) == "int64" {
+					if _, isIdent := ast.Unparen(call.Args[0]).(*ast.Ident); isIdent {
+						good = true
+					}
+				}
+			}
+			r.cond(good, "AGR-C01g", fi.Name, cons, pos,
+				"true only when the printed name of the type itself is int64",
+				"the converters are generated under `"+seen+"`, which is not the test that the ID type itself prints as int64: every ID type has int64 as underlying type, so a key typed by a named int64 of another package gets `func shared.IdArrayToPQ`, `type shared.IdSet`, which do not parse")
+			return true
+		}
+		// return <comparison of packages>
+		be, ok := res.(*ast.BinaryExpr)
+		good := ok && be.Op == token.EQL
+		if good {
+			kx, ky := pkgStringKind(info, be.X), pkgStringKind(info, be.Y)
+			good = (kx == "obj" || kx == "path") && (ky == "obj" || ky == "path")
+		}
+		r.cond(good, "AGR-C01g", fi.Name, cons, pos, "true exactly when the named type is declared in the analysed package", "the converters are generated for a named type under a condition that is not `its package is the analysed package`: the generated identifiers are qualified names")
+		return true
+	})
+	if n < 2 {
+		Undecided("AGR-C01g: generateArrayConverter has %d returns", n)
 	}
 }
